@@ -4,6 +4,7 @@ atoms, the distribution of arguments over subject / entity / objects, distinctne
 decided on the real code by harness/props/c15.py.
 -/
 import Cnl2aspModel.Compiler.Explain
+import Cnl2aspModel.Compiler.ExplainSentenceLemmas
 
 namespace Cnl2aspModel.Explain
 
@@ -42,3 +43,22 @@ example : entityPrinter "color".toList [("color name".toList, "Red".toList), ("c
 example : capFirst "there is node Red.".toList = "There is node Red.".toList := by decide
 
 end Cnl2aspModel.Explain
+
+
+namespace Cnl2aspModel.ExplainS
+
+/-- sentence-construction layer: whatever the signature (entity, subject, objects, any names and origins) and whatever the
+arguments, the values the sentence mentions — with the subject, with the objects, with the concept itself — are, counted with
+multiplicity, exactly the values of the atom's attributes: nothing is dropped and nothing is said twice.  Hypothesis (decidable,
+evaluated by the driver on every real case): no key of the atom equals in name and value a non-key attribute (the two
+`remove` calls of `_convert_attribute_to_entity` would then delete both).  `ne` is NameComponent.__eq__ (reflexive). -/
+theorem C15_sentence_mentions_all (ne : NameEq) (hr : ∀ x, ne x x = true) (entity : Ent) (subject : Option Ent) (objects : List Ent)
+    (args : List String) (hnc : noCrossB ne (parseSymbol entity args) = true) :
+    (mentioned ne entity subject objects args).Perm ((parseSymbol entity args).all.map (·.value)) :=
+  mentioned_perm ne hr entity subject objects args (noCrossB_sound ne _ hnc)
+
+/-- … and those values are the arguments of the symbol, in order, when the symbol has the arity of the signature -/
+theorem C15_sentence_values_are_arguments (e : Ent) (args : List String) (h : args.length = e.all.length) :
+    (parseSymbol e args).all.map (·.value) = args := parseSymbol_values e args h
+
+end Cnl2aspModel.ExplainS
